@@ -1,11 +1,10 @@
-// Shared helpers for the task-set harnesses (C04 / C02 / C05): real dispenso::ThreadPool +
-// TaskSet/ConcurrentTaskSet on the sequential engine with *virtual workers*: the std::thread model
-// never runs a pool thread; the harness plays pool worker by calling the real consumer functions of
-// ThreadPool between API calls (task-granularity interleaving).
+// Shared helpers for the task-set harnesses (C04 / C02 / C05): real TaskSet/ConcurrentTaskSet
+// (task_set.h, detail/task_set_impl.h, task_set.cpp) on the contract ThreadPool of
+// shim/dispenso/thread_pool.h, sequential engine with *virtual workers*: the harness plays pool
+// worker by calling the pool's consumer functions between API calls (task-granularity interleaving).
 #pragma once
 #include <dispenso/task_set.h>
 #include "vf.h"
-#include "thread_model.h"
 
 #ifndef VF_POOL_N
 #define VF_POOL_N 1
@@ -29,33 +28,14 @@ namespace tskit {
 
 using dispenso::ThreadPool;
 
-// One consumer step of a virtual pool worker, using the same real functions a pool thread / a
-// waiter uses.  how: 0 central queue (tryExecuteNext: dequeue + executeNext), 1 per-thread rings
-// (tryExecuteNextFromRings), 2 the worker-loop work finder (tryFindAndExecuteWork on ring/steal
-// ring `ring`, with the worker's own workRemaining_ accounting as in threadLoopImpl).
-VF_NOINLINE static bool workerStep(ThreadPool& pool, uint32_t how, uint32_t ring) {
+// One consumer step of a virtual pool worker / foreign waiter, through the pool's consumer interface
+// (the same functions TaskSet::wait / ConcurrentTaskSet::wait use): how 0 central queue, 1 rings.
+VF_NOINLINE static bool workerStep(ThreadPool& pool, uint32_t how) {
   if (how == 0) {
     return pool.tryExecuteNext();
   }
-  if (how == 1) {
-    size_t start = ring;
-    return pool.tryExecuteNextFromRings(start);
-  }
-#if VF_POOL_N > 0
-  {
-    moodycamel::ConsumerToken ctoken(pool.work_);
-    bool preferRing = vf_nondet_bool();
-    size_t stealIdx = ring / pool.stealRingSharing_;
-    bool got = pool.tryFindAndExecuteWork(
-        pool.rings_[ring], pool.stealRings_[stealIdx], stealIdx, ctoken, preferRing, 0, true);
-    if (got) {
-      pool.workRemaining_.fetch_sub(1, std::memory_order_relaxed);
-    }
-    return got;
-  }
-#else
-  return false;
-#endif
+  size_t start = 0;
+  return pool.tryExecuteNextFromRings(start);
 }
 
 // Up to `maxSteps` symbolic worker steps.
@@ -64,9 +44,7 @@ VF_NOINLINE static void workerRun(ThreadPool& pool, uint32_t maxSteps) {
     if (!vf_nondet_bool()) {
       break;
     }
-    uint32_t how = vf_range_u32(0, 2);
-    uint32_t ring = VF_POOL_N > 1 ? vf_range_u32(0, VF_POOL_N - 1) : 0;
-    workerStep(pool, how, ring);
+    workerStep(pool, vf_range_u32(0, 1));
   }
 }
 
